@@ -123,9 +123,32 @@ theorem fill_data {s a} (h : R s a) (hb : a.behind = none) (hal : a.err = none)
     constructor <;> simp_all
     left; omega
 
-theorem R.forget {s a} (h : R s a) : R s { a with behind := none } := by
+theorem R.forget {s a} (h : R s a) : R s a.forget := by
+  unfold LSt.forget
   destruct_R h
   constructor <;> simp_all <;> assumption
+
+@[simp] theorem forget_behind (a : LSt) : a.forget.behind = none := rfl
+@[simp] theorem forget_rest (a : LSt) : a.forget.rest = a.rest := rfl
+@[simp] theorem forget_err (a : LSt) : a.forget.err = a.err := rfl
+@[simp] theorem forget_look (a : LSt) : a.forget.look = a.look := rfl
+@[simp] theorem forget_ok (a : LSt) : a.forget.ok = a.ok := rfl
+@[simp] theorem forget_r (a : LSt) : a.forget.r = a.r := rfl
+
+@[simp] theorem fillE_rest (a : LSt) : a.fillE.rest = a.rest := by
+  unfold LSt.fillE; split <;> [rfl; (split <;> rfl)]
+@[simp] theorem fillE_err (a : LSt) : a.fillE.err = a.err := by
+  unfold LSt.fillE; split <;> [rfl; (split <;> rfl)]
+@[simp] theorem fillE_look (a : LSt) : a.fillE.look = a.look := by
+  unfold LSt.fillE; split <;> [rfl; (split <;> rfl)]
+@[simp] theorem fillE_behind (a : LSt) : a.fillE.behind = a.behind := by
+  unfold LSt.fillE; split <;> [rfl; (split <;> rfl)]
+@[simp] theorem fillE_ok (a : LSt) : a.fillE.ok = a.ok := by
+  unfold LSt.fillE; split <;> [rfl; (split <;> rfl)]
+@[simp] theorem fillE_r (a : LSt) : a.fillE.r = a.r := by
+  unfold LSt.fillE; split <;> [rfl; (split <;> rfl)]
+@[simp] theorem fillE_openBq (a : LSt) : a.fillE.openBq = a.openBq := by
+  unfold LSt.fillE; split <;> [rfl; (split <;> rfl)]
 
 theorem R.head {s a b f} (h : R s a) (hf : s.front = b :: f) :
     a.err = none ∧ a.rest = b :: (f ++ s.pending) := by
@@ -143,11 +166,17 @@ theorem R.front_nil {s a} (h : R s a) (hr : a.rest = []) : s.front = [] := by
     | nil => rfl
     | cons b f => simp [hf] at this
 
-theorem fillE_forget (a : LSt) : ({ a with behind := none } : LSt).fillE = { a.fillE with behind := none } := by
-  unfold LSt.fillE
-  split
-  · rfl
-  · split <;> rfl
+theorem R.pending_nil {s a} (h : R s a) (hal : a.err = none) (hr : a.rest = []) : s.pending = [] := by
+  have := (h.alive hal).1
+  rw [hr] at this
+  cases hp : s.pending with
+  | nil => rfl
+  | cons b f => simp [hp] at this
+
+theorem R.setLook {s a} (h : R s a) (k : Nat)
+    (hk : a.err = none → k ≤ s.front.length ∨ s.pending = []) : R s { a with look := k } := by
+  destruct_R h
+  constructor <;> simp_all <;> assumption
 
 /-- the common prologue of `peek`, `zshNumRange` and `rune`: with an empty buffer, `fill()`. -/
 theorem ensure1 {s a} (h : R s a) (hb : a.behind = none) (hf : s.front = []) :
@@ -181,48 +210,54 @@ theorem ensure1 {s a} (h : R s a) (hb : a.behind = none) (hf : s.front = []) :
       rw [hfr, hf]
       simpa using hne
 
-theorem R.setLook {s a} (h : R s a) (k : Nat)
-    (hk : a.err = none → k ≤ s.front.length ∨ s.pending = []) : R s { a with look := k } := by
-  destruct_R h
-  constructor <;> simp_all <;> assumption
-
-theorem R.pending_nil {s a} (h : R s a) (hal : a.err = none) (hr : a.rest = []) : s.pending = [] := by
-  have := (h.alive hal).1
-  rw [hr] at this
-  cases hp : s.pending with
-  | nil => rfl
-  | cons b f => simp [hp] at this
-
-theorem peek_refines {s a} (h : R s a) :
-    ∃ s', s.peek = .ok (a.peek.1, s') ∧ R s' a.peek.2 := by
-  have h0 := h.forget
-  unfold St.peek
+/-- `peek` on an `R`-related pair, for a spec state whose `behind` is already forgotten -/
+theorem peek_refines0 {s a} (h : R s a) (hb : a.behind = none) :
+    ∃ s', s.peek = .ok ((match a.peekEff0.rest with | [] => runeSelf | b :: _ => b.toNat), s')
+      ∧ R s' a.peekEff0 := by
+  unfold St.peek LSt.peekEff0
   cases hf : s.front with
   | cons b f =>
     obtain ⟨hal, hrest⟩ := h.head hf
-    refine ⟨s, by simp [hf, LSt.peek, LSt.peekEff, hrest], ?_⟩
-    have : a.peek.2 = { ({ a with behind := none } : LSt) with look := max a.look 1 } := by
-      simp [LSt.peek, LSt.peekEff, hrest]
-    rw [this]
-    apply h0.setLook
+    refine ⟨s, by simp [hf, hrest], ?_⟩
+    simp only [hrest, List.isEmpty_cons]
+    apply h.setLook
     intro _
     rcases h.look hal with hl | hl
     · left; simp [hf] at hl ⊢; omega
     · right; exact hl
   | nil =>
-    obtain ⟨n, s', h1, h2, h3, h4⟩ := ensure1 h0 rfl hf
+    obtain ⟨n, s', h1, h2, h3, h4⟩ := ensure1 h hb hf
     simp only [List.isEmpty_nil, if_true, h1, map_ok, bind_ok]
     cases hr : a.rest with
     | nil =>
-      have hr0 : ({ a with behind := none } : LSt).rest = [] := hr
-      rw [hr0] at h2
-      simp only [List.isEmpty_nil, if_true] at h2
-      have hf' : s'.front = [] := h2.front_nil (by simp [LSt.fillE]; split <;> [exact hr; (split <;> exact hr)])
-      refine ⟨s', by simp [hf', LSt.peek, LSt.peekEff, hr, LSt.fillE]; split <;> [simp [hr]; (split <;> simp [hr])], ?_⟩
-      sorry
+      simp only [hr, List.isEmpty_nil, if_true] at h2 ⊢
+      have hf' : s'.front = [] := h2.front_nil (by simp [hr])
+      refine ⟨s', by simp [hf', hr], ?_⟩
+      apply h2.setLook
+      intro hal
+      right
+      exact h2.pending_nil hal (by simp [hr])
     | cons x xs =>
-      sorry
+      simp only [hr, List.isEmpty_cons] at h2 ⊢
+      have hne : s'.front ≠ [] := h4 (by simp [hr])
+      cases hf' : s'.front with
+      | nil => exact absurd hf' hne
+      | cons b f =>
+        obtain ⟨hal, hrest⟩ := h2.head hf'
+        rw [hr] at hrest
+        injection hrest with hx _
+        refine ⟨s', by simp [hx], ?_⟩
+        apply h2.setLook
+        intro _
+        rcases h2.look hal with hl | hl
+        · left; simp [hf'] at hl ⊢; omega
+        · right; exact hl
 
-end ShVerif.C07
+theorem peek_refines {s a} (h : R s a) :
+    ∃ s', s.peek = .ok (a.peek.1, s') ∧ R s' a.peek.2 := by
+  obtain ⟨s', h1, h2⟩ := peek_refines0 h.forget (forget_behind a)
+  refine ⟨s', ?_, ?_⟩
+  · rw [h1]; unfold LSt.peek LSt.peekEff; split <;> simp_all
+  · unfold LSt.peek LSt.peekEff; split <;> simpa using h2
 
 end ShVerif.C07
